@@ -678,7 +678,7 @@ func runC14(tier string, args []string) {
 			b, _ := json.Marshal(&c14Lane{Lane: l.idx, Jobs: l.jobs})
 			_ = os.WriteFile(lf, b, 0o644)
 			cmd := exec.Command(os.Args[0], "c14child", tier, lf)
-			cmd.Env = append(c14Env(), "GORACE=halt_on_error=0 log_path="+filepath.Join(work, fmt.Sprintf("race-c14-lane%d", l.idx)))
+			cmd.Env = append(c14Env(), "GORACE=halt_on_error=0 exitcode=0 log_path="+filepath.Join(work, fmt.Sprintf("race-c14-lane%d", l.idx)))
 			l.res = child.Run(cmd, filepath.Join(work, fmt.Sprintf("c14-lane%d.out", l.idx)), 90*time.Minute, nil)
 		}(l)
 	}
